@@ -217,6 +217,7 @@ func (c *Coordinator) runOnce() (err error) {
 
 		lastGlobalScrapeStatus := c.globalScrapeStatus(active, shardsInfo)
 		c.gcTargets(changeAbleShards, active)
+		c.recoverOrphanTransfers(changeAbleShards)
 		needSpace := c.alleviateShards(changeAbleShards)
 		needSpace.add(c.assignNoScrapingTargets(shardsInfo, active, lastGlobalScrapeStatus))
 
